@@ -56,6 +56,7 @@ type PathResult struct {
 	VarOrder    []string
 	Choices     []Choice
 	Asserts     int
+	Tainted     bool // an assertion was violable on this path
 	Obligations map[string]int
 }
 
@@ -554,6 +555,7 @@ func (e *Engine) doAssert(c *Term, obligation string) {
 	}
 	switch v {
 	case Sat:
+		e.res.Tainted = true
 		if !e.cexSeen[key] {
 			tr := append([]int32(nil), e.trace...)
 			e.res.Cex = append(e.res.Cex, Counterexample{Obligation: obligation, Class: e.classTag, Model: m, Trace: tr, Kind: "assert",
